@@ -38,6 +38,9 @@ type Float struct {
 	W  int // 32 or 64
 	// Pow10Of != nil: the (unknown) value is math.Pow10 of this int64 term
 	Pow10Of *smt.Term
+	// Int != nil: the value is the float64 nearest (round-half-even) to this
+	// signed 64-bit integer term
+	Int *smt.Term
 }
 
 // Str is a string whose bytes are terms. If Dec != nil the string is the
